@@ -43,10 +43,12 @@ def run(tier):
     gen = build_tool("rdgen")
     det = build_tool("rddetector")
     scen = []
-    ss = [1, 2, 17, 300] if thorough else [1, 17]
+    ss = [1, 2, 17, 100, 101, 257, 300] if thorough else [1, 17, 130]
     for s in ss:
-        for n in ([20000, 8, 4096, 1000000] if thorough else [20000, 4096]):
+        for n in ([20000, 8, 4096, 1000000] if thorough else [20000, 4096, 8]):
             if n == 1000000 and s > 17:
+                continue
+            if s > 17 and n not in (8, 4096):
                 continue
             for o in ([None, "data", "./a/b/c", "ABS", "pre"] if thorough else ([None, "pre"] if n == 20000 else ["ABS", rng.choice(["data", "./a/b/c"])])):
                 scen.append((s, n, o, rng.choice([None, "0", "0-1"]), rng.choice([1, 2, 16])))
